@@ -57,16 +57,22 @@ type H struct {
 	refused   map[int]string
 	writeDone []int
 
-	reqTerm       int64 // term of the Append request being delivered
-	fencedTerm    int64 // highest term for which NewTerm answered OK
-	fenceOpen     bool  // no action carrying a term >= fencedTerm has been accepted since
-	fenceLen      int   // len(shadow) when NewTerm answered
-	terms         map[int64]*termInfo
-	walBroken     bool
-	snapFailed    bool // a snapshot install failed after its first chunk and no NewTerm has stored the term since
-	termLost      bool // ... and the node was restarted in that state
-	kvf0          *capKvFactory
-	racing        bool // a handler may outlive the request that started it (parked handler, stream closed by another request)
+	reqTerm    int64 // term of the Append request being delivered
+	fencedTerm int64 // highest term for which NewTerm answered OK
+	fenceOpen  bool  // no action carrying a term >= fencedTerm has been accepted since
+	fenceLen   int   // len(shadow) when NewTerm answered
+	terms      map[int64]*termInfo
+	walBroken  bool
+	snapFailed bool // a snapshot install failed after its first chunk and no NewTerm has stored the term since
+	termLost   bool // ... and the node was restarted in that state
+	kvf0       *capKvFactory
+	// kill-at-the-answer images
+	captureFlush  bool               // take an image of the WAL directory at the start of every flush
+	flushTmp      string             // image taken at the start of the flush in progress
+	flushImage    string             // image taken at the start of the last completed flush ("" = none / invalidated)
+	flushPark     *parkT             // when set, the next flush parks right after its image was taken
+	ackedEnts     map[ent]bool       // entries the node acknowledged (and that no later request removed)
+	racing        bool               // a handler may outlive the request that started it (parked handler, stream closed by another request)
 	reported      map[int64][2]int64 // head reported in the NewTerm response, by term
 	ackedIn       map[int64]int64    // highest offset acknowledged on a stream of the term
 	hasReported   map[int64]bool
@@ -78,23 +84,35 @@ type H struct {
 	probeTimeouts int
 }
 
-func newH(o *hx.Out) *H {
+func scratchBase() string {
 	base := os.Getenv("VERIF_TMP")
 	if base == "" {
 		base = "/var/tmp"
 	}
-	dir, err := os.MkdirTemp(base, "node-")
+	return base
+}
+
+func newH(o *hx.Out) *H {
+	dir, err := os.MkdirTemp(scratchBase(), "node-")
 	hx.Must(err)
 	h := &H{o: o, dir: dir, streams: map[int]*streamH{}, terms: map[int64]*termInfo{}, viol: map[string]string{},
-		ackedIn: map[int64]int64{}, reported: map[int64][2]int64{}, hasReported: map[int64]bool{}, writeRes: map[int]bool{}, refused: map[int]string{}, fencedTerm: -1, adv: 0}
-	inner, err := kvsafe.New(&kv.FactoryOptions{DataDir: dir + "/db", CacheSizeMB: 1})
-	hx.Must(err)
-	h.kvf0 = &capKvFactory{Factory: inner}
-	h.kvf = h.kvf0
-	h.realWf = wal.NewWalFactory(&wal.FactoryOptions{BaseWalDir: dir + "/wal", SegmentSize: 256 * 1024, Retention: time.Hour, SyncData: true})
-	h.wf = &gateFactory{inner: h.realWf, ev: h}
+		ackedEnts: map[ent]bool{}, ackedIn: map[int64]int64{}, reported: map[int64][2]int64{}, hasReported: map[int64]bool{}, writeRes: map[int]bool{}, refused: map[int]string{}, fencedTerm: -1, adv: 0}
+	hx.Must(h.openFactories())
 	h.openDirector()
 	return h
+}
+
+// openFactories: the KV and WAL factories of a node whose data live in h.dir
+func (h *H) openFactories() error {
+	inner, err := kvsafe.New(&kv.FactoryOptions{DataDir: h.dir + "/db", CacheSizeMB: 1})
+	if err != nil {
+		return err
+	}
+	h.kvf0 = &capKvFactory{Factory: inner}
+	h.kvf = h.kvf0
+	h.realWf = wal.NewWalFactory(&wal.FactoryOptions{BaseWalDir: h.dir + "/wal", SegmentSize: 256 * 1024, Retention: time.Hour, SyncData: true})
+	h.wf = &gateFactory{inner: h.realWf, ev: h}
+	return nil
 }
 
 func (h *H) openDirector() {
@@ -107,6 +125,12 @@ func (h *H) close() {
 	_ = h.sd.Close()
 	_ = h.kvf.Close()
 	_ = os.RemoveAll(h.dir)
+	if h.flushImage != "" {
+		_ = os.RemoveAll(h.flushImage)
+	}
+	if h.flushTmp != "" {
+		_ = os.RemoveAll(h.flushTmp)
+	}
 }
 
 // ---- events from the WAL wrapper
@@ -141,13 +165,18 @@ func (h *H) onTruncated(g *gateWal, head int64) {
 	for _, e := range h.shadow {
 		if e.off <= head {
 			s = append(s, e)
+		} else {
+			delete(h.ackedEnts, e) // removed by a request: no longer promised
 		}
 	}
 	h.shadow = s
+	h.invalidateFlushImage()
 }
 func (h *H) onCleared(g *gateWal) {
 	h.mu.Lock()
 	defer h.mu.Unlock()
+	h.ackedEnts = map[ent]bool{}
+	h.invalidateFlushImage()
 	h.shadow = nil
 }
 
@@ -164,6 +193,11 @@ func (h *H) onAck(s *streamH, off int64) {
 	h.acks = append(h.acks, ackRec{s.sid, off})
 	if cur, ok := h.ackedIn[s.term]; !ok || off > cur {
 		h.ackedIn[s.term] = off
+	}
+	for _, e := range h.shadow {
+		if e.off <= off {
+			h.ackedEnts[e] = true
+		}
 	}
 	// a negative term = a stream that does not announce its term (pre-term-metadata leaders): assumed away
 	if s.term >= 0 && s.term < h.fencedTerm {
@@ -840,6 +874,11 @@ func (h *H) writeCallback(seq int) concurrent.Callback[*proto.WriteResponse] {
 		h.writeRes[seq] = true
 		h.writeDone = append(h.writeDone, seq)
 		if off, ok := writeOffsets.Load(seq); ok {
+			for _, e := range h.shadow {
+				if e.off <= off.(int64) {
+					h.ackedEnts[e] = true
+				}
+			}
 			for _, e := range h.shadow {
 				if e.off == off.(int64) && e.term < h.fencedTerm {
 					h.violate("fenced:write-completed-for-old-term", fmt.Sprintf("client write at %v completed OK after NewTerm(%d) answered", e, h.fencedTerm))
